@@ -40,7 +40,13 @@ def sortCerts (l : List Cert) : List Cert := l.foldr insCert []
 
 /-- cert token `7` (honest certificate of chunk 7) or `7x` (same reference, bad signature) -/
 def cert? (s : St) (w : String) : Option Cert :=
-  if w.endsWith "f" then
+  if w.endsWith "q" then
+    -- the certificate of chunk i with the signer set reduced to the producer: below the harness
+    -- chain state's quorum (1/1), so its signature does not verify; `Accept` does not look at it
+    match nat? (w.dropEnd 1).toString with
+    | some i => if s.univ.any (fun e => e.1 == i) then some ⟨i, (s.cfg.U i).expiry, false⟩ else none
+    | none => none
+  else if w.endsWith "f" then
     match nat? (w.dropEnd 1).toString with
     | some i => (s.forged.find? (fun e => e.1 == i)).map (fun e => ⟨i, e.2, true⟩)
     | none => none
@@ -199,7 +205,19 @@ def step (s : St) (ws : List String) : St × String :=
         | .none => (s, "none")
       | _, _ => bad
     | _, _, _ => bad
-  | "accept" :: h :: script =>
+  | "racesetmin" :: m :: j :: ids =>
+    -- SetMin(m, ids) with AddLocalChunkWithCert(chunk j, nil) arriving from another goroutine while
+    -- the batch is being written: the storage lock serialises them as SetMin; add
+    match nat? m, nat? j, allSome (ids.map nat?) with
+    | some m, some j, some ids =>
+      if !(ids.all (known s)) || !known s j then bad else
+      let r := setMin s.cfg s.node.st m ids
+      (setStorage s (putVerified s.cfg r.1 j none), if r.2 then "ok" else "err")
+    | _, _, _ => bad
+  | "accept" :: h :: script0 =>
+    -- `D1`/`D2`: validator 1/2 is unreachable during this accept (requests to it fail and are
+    -- retried with another validator): no effect on the outcome
+    let script := script0.filter (fun w => w != "D1" && w != "D2")
     match nat? h, allSome (script.map resp?) with
     | some h, some script =>
       match blk? s h with
